@@ -9,7 +9,7 @@ EXPLANATION = ('_swap_blades: loop invariants per concrete list length n <= 16 w
                'scheme has 16 hex digits), parities in XOR-normal form: par(swaps) == Inv(b1++b2) xor P(result).  '
                '_compute_sign: loop invariant sign == (-1)^swaps * product of the metric of the eliminated generators.  '
                '_prepare_signs / DefaultKeyDict.__missing__: every entry is _compute_sign of its pair (eager or lazy).  '
-               'default naming comprehension, cayley loop, _blade2canon, BladeDict.__getitem__.  Lemma library over symbolic '
+               'default naming comprehension, custom-basis branch of __post_init__ (generic basis: start_index, vec2bin, canon2bin fold, bin2canon order), cayley loop, _blade2canon, BladeDict.__getitem__.  Lemma library over symbolic '
                'signature masks (all (p,q,r), all orderings, d <= 16): associativity, squares, anticommutation, unit, '
                'ordered products, orientation twist.  Bounded: tables stand-in compares the real tables with an independent '
                'reference built from the blade names only.')
@@ -23,9 +23,11 @@ ASSUMPTIONS = [K.ASSUME_CPYTHON,
                'admissible basis: names are e + distinct hex digits of generators start_index..start_index+d-1; no generator '
                'is named e (index 14) in non-canonical spellings',
                'collections.Counter, numpy array indexing, re.match, hex()/int(,16) on single digits behave as documented',
-               'custom-basis canon2bin/bin2canon comprehensions, indices_for_grade(s): not under contract (tables stand-in only)']
-ASSUMED = ['custom-basis branch of Algebra.__post_init__ (canon2bin from vec2bin, start_index=int(min(vecs))): bounded stand-in only',
-           'signature ordering branch (r == 1 puts the null generator first): bounded stand-in only']
+               'custom-basis branch of __post_init__ (under contract for every well-formed basis: any number of names, lengths, '
+               'characters): builtin contracts of min / sorted / enumerate and of a filtering list comprehension (the selected '
+               'elements in source order) are assumed; well-formedness of the user-supplied basis (generator characters are '
+               'vector names, pairwise distinct) is a precondition; indices_for_grade(s): tables stand-in only']
+ASSUMED = ['signature ordering branch (r == 1 puts the null generator first): bounded stand-in only']
 
 
 def build(H, tier, seed):
@@ -33,6 +35,7 @@ def build(H, tier, seed):
     A.vc_compute_sign(H)
     A.vc_prepare_signs(H)
     A.vc_default_naming(H)
+    A.vc_custom_basis(H)
     A.vc_cayley(H)
     A.vc_blade2canon(H)
     A.vc_blade2canon_concrete(H)
